@@ -66,6 +66,21 @@ static inline void c8_append(vout* s, const char* p, size_t n)
   if (s->size == g_obase && g_rk < n) g_oval = p[g_rk];
   s->size += n;
 }
+/* std::string::c_str(): the buffer followed by a NUL terminator ([string.accessors]) */
+static inline const char* c8_cstr(const vstr* s)
+{
+  __CPROVER_assume(s->size < s->cap && s->data[s->size] == 0);
+  return s->data;
+}
+/* append(const char* p): appends the C string at p, i.e. the bytes up to (not including) the FIRST NUL */
+static inline void c8_append_cstr(vout* s, const char* p)
+{
+  size_t n;
+  __CPROVER_assume(n <= VSTR_MAXCAP);
+  __CPROVER_assume(__CPROVER_r_ok(p, n + 1) && p[n] == 0);     /* a terminator exists ... */
+  __CPROVER_assume(g_rk < n ==> p[g_rk] != 0);                 /* ... and no byte before it (ghost index) is NUL */
+  c8_append(s, p, n);
+}
 static inline void c8_push_back(vout* s, char c)
 {
   __CPROVER_assume(s->size < VSTR_MAXCAP);          /* allocation succeeds */
